@@ -22,6 +22,9 @@ def run(check, tier):
         if res.get("parse_error"):
             check.count("rejected_at_parse")
             continue
+        if res.get("unmodelled"):
+            check.count("unmodelled_" + res["unmodelled"])
+            continue
         check.evaluations += 1
         prof[c["profile"]] = prof.get(c["profile"], 0) + 1
         if res.get("raised"):
